@@ -43,13 +43,14 @@ const (
 	FaultCancelAtPrepared
 	FaultCancelAtOffspring
 	FaultCancelAtSpeciate
+	FaultEvalErrorAfterSolved // the evaluator marks the generation solved and then fails (found a winner, could not save it)
 	numFaultKinds
 	// FaultDeadline is not placed at a (trial, generation): it is the context's own deadline (ExpSim.DeadlineNs)
 	FaultDeadline = 100
 )
 
 var FaultNames = []string{"none", "eval-error", "cancel@eval-entry", "cancel@eval-mid(timer)", "cancel@eval-exit", "cancel@TrialRunStarted",
-	"cancel@EpochEvaluated", "cancel@TrialRunFinished", "cancel@epoch.prepared", "cancel@offspring-k", "cancel@speciate.begin"}
+	"cancel@EpochEvaluated", "cancel@TrialRunFinished", "cancel@epoch.prepared", "cancel@offspring-k", "cancel@speciate.begin", "eval-error-after-solved"}
 
 // FaultSpec places one fault at (trial, generation).
 type FaultSpec struct {
@@ -232,6 +233,15 @@ func (s *ExpSim) GenerationEvaluate(ctx context.Context, pop *genetics.Populatio
 		epoch.WinnerEvals = s.Opts.PopSize*epoch.Id + best.Genotype.Id + 1
 	}
 	epoch.FillPopulationStatistics(pop)
+	if f := s.faultAt(FaultEvalErrorAfterSolved, trial, gen); f != nil && epoch.Solved {
+		if s.FaultSeq < 0 {
+			s.FaultSeq = len(s.Log)
+			s.FaultKind = f.Kind
+		}
+		s.Fired["fault."+FaultNames[f.Kind]]++
+		s.EvalErrSeq = len(s.Log)
+		return fmt.Errorf("generation %d of trial %d solved, but: %w", gen, trial, ErrInjectedEval)
+	}
 	if f := s.faultAt(FaultCancelEvalExit, trial, gen); f != nil {
 		s.fire(*f)
 	}
